@@ -9,7 +9,8 @@ META = {
     "engine": "coq+correspondence",
     "technique": "Coq proof (quorum intersection from the C18 thresholds + lock invariant by induction on rounds) on an "
                  "abstract vote-set model of the network whose commit threshold is the Gallina image of math.go regenerated "
-                 "on every run; the tie to the engine is a run of 4-7 REAL engines on a harness-owned in-memory network "
+                 "on every run and whose finalize guard is proved equal to the commit decision ladders extracted from statemachine.go / kernel.go "
+                 "(Gen/Commit.v, regenerated on every run); the dynamic tie is a run of 4-7 REAL engines on a harness-owned in-memory network "
                  "(delays, reordering, duplication, held messages, partitions, an equivocating Byzantine validator, a scripted "
                  "split-brain attempt) whose finalize streams, header stores and signed votes are judged inside coqc by the "
                  "agreement monitor, the hypothesis checkers (A1-A3) and the model's commit rule",
@@ -160,7 +161,9 @@ def parse_out(cout, idx):
 def main(argv):
     c = vcheck.Check("C03", argv)
     c.trusted += [
-        "translator /verif/translate for tm/tmconsensus/math.go (the model's quorum threshold is the generated byz_majority)",
+        "translator /verif/translate for tm/tmconsensus/math.go (the model's quorum threshold is the generated byz_majority) and its "
+        "decision_ladder extractor (translate/c03.go) for statemachine.go:handlePrecommitViewUpdate and "
+        "kernel.go:checkVotingPrecommitViewShift (Gen/Commit.v; proved equal to the model's Finalize guard)",
         "Go harness /verif/harness/c03: in-memory network scheduler, lock-respecting ConsensusStrategy, Byzantine signer, "
         "driver recording FinalizeBlockRequests; reconstruction of model traces from the observed votes (checks/c03.py)",
         "Go runtime scheduling and timers (the real engines run concurrently; schedules are sampled, the theorem quantifies)",
@@ -176,10 +179,10 @@ def main(argv):
     c.grep_gate()
 
     # 1. regenerate the threshold functions, 2. re-check the theorems
-    tok, tlog = c.translate(only=["Gen/Math.v"])
+    tok, tlog = c.translate(only=["Gen/Math.v", "Gen/Commit.v"])
     proved = False
     if not tok:
-        c.obligations.append("translate Gen/Math.v")
+        c.obligations.append("translate Gen/Math.v Gen/Commit.v")
         c.broken = {"file": "translate", "log": tlog[-800:]}
     else:
         proved = c.prove("C03")
